@@ -136,33 +136,51 @@ Proof.
 Qed.
 
 (* ---------- take: bounds-checked slice read ---------- *)
+(* "does l have at least k elements?" looks at no more than k of them (computing `length l` for every string item made the decoder
+   model quadratic in the number of blocks) *)
+Fixpoint has_len (k : nat) (l : list byte) : bool :=
+  match k, l with O, _ => true | S _, [] => false | S k', _ :: t => has_len k' t end.
+Lemma has_len_leb k : forall l, has_len k l = Nat.leb k (length l).
+Proof. induction k as [|k IH]; intros l; [reflexivity|]. destruct l as [|x t]; [reflexivity|]. cbn [has_len length Nat.leb]. apply IH. Qed.
 Definition take (k : nat) (l : list byte) : option (list byte * list byte) :=
-  if Nat.leb k (length l) then Some (firstn k l, skipn k l) else None.
+  if has_len k l then Some (firstn k l, skipn k l) else None.
 Lemma take_app w x r : length x = w -> take w (x ++ r) = Some (x, r).
 Proof.
-  intros H. unfold take. rewrite app_length, H.
+  intros H. unfold take. rewrite has_len_leb, app_length, H.
   replace (Nat.leb w (w + length r)) with true by (symmetry; apply Nat.leb_le; lia).
   subst w. rewrite firstn_app, firstn_all, Nat.sub_diag, skipn_app, skipn_all, Nat.sub_diag. cbn [firstn skipn app].
   rewrite app_nil_r. reflexivity.
 Qed.
 Lemma take_some k l x r : take k l = Some (x, r) -> l = x ++ r /\ length x = k.
 Proof.
-  unfold take. destruct (Nat.leb k (length l)) eqn:E; [|discriminate]. apply Nat.leb_le in E.
+  unfold take. rewrite has_len_leb. destruct (Nat.leb k (length l)) eqn:E; [|discriminate]. apply Nat.leb_le in E.
   intros H; inversion H; subst. split; [symmetry; apply firstn_skipn|apply firstn_length_le; exact E].
 Qed.
-(* N-indexed variant: a length claim larger than the input fails before any nat of that size is built *)
+(* N-indexed variant: a length claim larger than the input fails before any nat of that size is built, and without measuring the input *)
+Fixpoint at_least (l : list byte) (n : N) : bool :=
+  match l with
+  | [] => n =? 0
+  | _ :: t => if n =? 0 then true else at_least t (N.pred n)
+  end.
+Lemma at_least_leb l : forall n, at_least l n = (n <=? N.of_nat (length l)).
+Proof.
+  induction l as [|x t IH]; intros n; cbn [at_least length].
+  - destruct (n =? 0) eqn:E; [apply N.eqb_eq in E; subst; reflexivity|]. apply N.eqb_neq in E. symmetry. apply N.leb_gt. lia.
+  - destruct (n =? 0) eqn:E; [apply N.eqb_eq in E; subst; reflexivity|]. apply N.eqb_neq in E. rewrite IH.
+    destruct (N.pred n <=? N.of_nat (length t)) eqn:A; symmetry; [apply N.leb_le in A; apply N.leb_le; lia|apply N.leb_gt in A; apply N.leb_gt; lia].
+Qed.
 Definition takeN (n : N) (l : list byte) : option (list byte * list byte) :=
-  if n <=? N.of_nat (length l) then take (N.to_nat n) l else None.
+  if at_least l n then take (N.to_nat n) l else None.
 Lemma takeN_app x r : takeN (N.of_nat (length x)) (x ++ r) = Some (x, r).
 Proof.
-  unfold takeN. rewrite app_length, Nat2N.inj_add.
+  unfold takeN. rewrite at_least_leb, app_length, Nat2N.inj_add.
   replace (N.of_nat (length x) <=? N.of_nat (length x) + N.of_nat (length r)) with true
     by (symmetry; apply N.leb_le; lia).
   rewrite Nat2N.id. apply take_app. reflexivity.
 Qed.
 Lemma takeN_some n l x r : takeN n l = Some (x, r) -> l = x ++ r /\ N.of_nat (length x) = n.
 Proof.
-  unfold takeN. destruct (n <=? N.of_nat (length l)); [|discriminate].
+  unfold takeN. rewrite at_least_leb. destruct (n <=? N.of_nat (length l)); [|discriminate].
   intros H. apply take_some in H as [-> H]. split; [reflexivity|]. rewrite H. apply N2Nat.id.
 Qed.
 
